@@ -237,6 +237,13 @@ func (p *c09) plant(r *lib.Rand, g *gen.SpecGen, doc map[string]any) *c09Plant {
 		pl.where, pl.chain = fmt.Sprintf("simple parameter, items depth %d", d), []string{"simple-param", fmt.Sprintf("items*%d", d)}
 		pl.setValue = func(v any) { target["default"] = v }
 		pl.remove = func() { delete(target, "default") }
+		if d >= 1 && r.Bool() {
+			// the default sits on the parameter itself: an array value nested d deep around the leaf value
+			top := node
+			pl.where, pl.chain = fmt.Sprintf("simple parameter, array default nested %d deep", d), []string{"simple-param", fmt.Sprintf("array-default*%d", d)}
+			pl.setValue = func(v any) { top["default"] = wrapArray(v, d) }
+			pl.remove = func() { delete(top, "default") }
+		}
 	default:
 		// response header, possibly through nested items
 		if forExample {
@@ -262,6 +269,12 @@ func (p *c09) plant(r *lib.Rand, g *gen.SpecGen, doc map[string]any) *c09Plant {
 		pl.where, pl.chain = fmt.Sprintf("response header, items depth %d", d), []string{"header", fmt.Sprintf("items*%d", d)}
 		pl.setValue = func(v any) { target["default"] = v }
 		pl.remove = func() { delete(target, "default") }
+		if d >= 1 && r.Bool() {
+			top := node
+			pl.where, pl.chain = fmt.Sprintf("response header, array default nested %d deep", d), []string{"header", fmt.Sprintf("array-default*%d", d)}
+			pl.setValue = func(v any) { top["default"] = wrapArray(v, d) }
+			pl.remove = func() { delete(top, "default") }
+		}
 	}
 	return pl
 }
@@ -385,4 +398,13 @@ func (p *c09) Finish(a *lib.Aggregate) (broken []string) {
 		broken = append(broken, "defaults or examples never planted")
 	}
 	return
+}
+
+// wrapArray nests a value d levels deep in one-element arrays (with a valid sibling at the innermost level).
+func wrapArray(v any, d int) any {
+	var out any = []any{gen.I(1), v}
+	for i := 1; i < d; i++ {
+		out = []any{out}
+	}
+	return out
 }
